@@ -69,6 +69,7 @@ impl IndicatorConfig for MoneyFlowIndex {
 			nmf: 0.,
 			cross_lower: Cross::default(),
 			cross_upper: Cross::default(),
+			flat: cfg.period,
 			cfg,
 		})
 	}
@@ -122,6 +123,9 @@ pub struct MoneyFlowIndexInstance {
 	nmf: ValueType,
 	cross_lower: Cross,
 	cross_upper: Cross,
+	/// number of the most recent consecutive steps without any money flow (saturating)
+	#[cfg_attr(feature = "serde", serde(default))]
+	flat: PeriodType,
 }
 
 #[inline]
@@ -155,6 +159,19 @@ impl IndicatorInstance for MoneyFlowIndexInstance {
 		// updates make them negative, otherwise the ratio leaves [0.0; 1.0] (down to negative infinity)
 		self.pmf = (self.pmf + (pos - left_pos)).max(0.);
 		self.nmf = (self.nmf + (neg - left_neg)).max(0.);
+
+		// when the window holds no money flow at all, both sums are exactly zero whatever residue is left
+		// in them; otherwise the value would be a ratio of residues
+		self.flat = if pos == 0. && neg == 0. {
+			self.flat.saturating_add(1)
+		} else {
+			0
+		};
+
+		if self.flat >= self.cfg.period {
+			self.pmf = 0.;
+			self.nmf = 0.;
+		}
 
 		let mfr = if self.nmf == 0.0 {
 			1.
